@@ -239,6 +239,34 @@ func runRecover(c *ctx) error {
 			s.Tick(3201 + uint32(rng.Intn(50)))
 			s.waitOffset(2016)
 		}
+		// eight consecutive slots filling one byte of the server's bitfield are delivered, the two
+		// slots after them are lost
+		{
+			off := s.Srv.VerifSnapshot().Offset
+			now := s.Now()
+			base := off + ((now-off-40)/8)*8
+			for i := uint32(0); i < 10; i++ {
+				lines = append(lines, fmt.Sprintf("%d,%d", G+int64(base+i)*300+5, 100+int64(i)))
+				if base+i > latest {
+					latest = base + i
+				}
+			}
+			cli.WriteEnergy(lines)
+			if !cli.Iterate() {
+				return fmt.Errorf("report loop stuck")
+			}
+			want := nsent
+			nsent = 0
+			for _, b := range rl.take(want) {
+				tsv := uint32(b[4]) | uint32(b[5])<<8 | uint32(b[6])<<16 | uint32(b[7])<<24
+				if tsv >= base && tsv < base+8 {
+					ts.Emit(hx.J{"a": "Net", "op": "deliver", "dg": dg(b)})
+					forward(b)
+				} else {
+					ts.Emit(hx.J{"a": "Net", "op": "drop", "dg": dg(b)})
+				}
+			}
+		}
 		// a last batch of readings (all value classes, the newest slot included) is lost entirely
 		{
 			now := s.Now()
